@@ -85,7 +85,9 @@ type verifFetcher struct {
 	blob        []byte
 	fetches     int
 	personality int // -1: choose per call
-	maxRead     int // bytes per Read call (0 = all)
+	// arbitraryFirst: the first reply is one part with an arbitrary Content-Range (personality 5)
+	arbitraryFirst bool
+	maxRead        int // bytes per Read call (0 = all)
 }
 
 func verifKeyOf(reg region) string {
@@ -93,7 +95,7 @@ func verifKeyOf(reg region) string {
 }
 
 func (f *verifFetcher) genID(reg region) string { return verifKeyOf(reg) }
-func (f *verifFetcher) check() error             { return nil }
+func (f *verifFetcher) check() error            { return nil }
 
 type verifPart struct {
 	reg region
@@ -129,7 +131,14 @@ func (m *verifMultipart) Next() (region, io.Reader, error) {
 	}
 	reg := m.parts[m.pos]
 	m.pos++
-	return reg, &verifSliceReader{b: m.f.blob[reg.b : reg.e+1], maxRead: m.f.maxRead}, nil
+	lo, hi := reg.b, reg.e+1
+	if hi > int64(len(m.f.blob)) {
+		hi = int64(len(m.f.blob))
+	}
+	if lo > hi {
+		lo = hi
+	}
+	return reg, &verifSliceReader{b: m.f.blob[vr.Concrete(int(lo)):vr.Concrete(int(hi))], maxRead: m.f.maxRead}, nil
 }
 func (m *verifMultipart) Close() error { return nil }
 
@@ -140,6 +149,9 @@ func (f *verifFetcher) fetch(ctx context.Context, rs []region, retry bool) (mult
 	p := f.personality
 	if p < 0 {
 		p = vr.Choice("personality", 5)
+	}
+	if f.arbitraryFirst && f.fetches == 1 {
+		p = 5
 	}
 	size := int64(len(f.blob))
 	switch p {
@@ -154,6 +166,12 @@ func (f *verifFetcher) fetch(ctx context.Context, rs []region, retry bool) (mult
 		return &verifMultipart{f: f, parts: []region{{0, size - 1}}}, nil
 	case 3: // transient failure
 		return nil, errVerifFetch
+	case 5: // one part with an arbitrary Content-Range (unrequested, unaligned, empty, reaching past the end of the
+		// blob - parseRange admits any pair of non-negative numbers); its body carries the blob's bytes of that range
+		b, e := vr.I64("partBegin"), vr.I64("partEnd")
+		vr.Assume(0 <= b && b <= size+2)
+		vr.Assume(0 <= e && e <= size+2)
+		return &verifMultipart{f: f, parts: []region{{b, e}}}, nil
 	default: // one requested part is missing from the reply
 		if len(rs) == 0 {
 			return &verifMultipart{f: f}, nil
@@ -255,12 +273,35 @@ func verifReadAtCheck(env *verifBlobEnv, maxLen int) {
 	vr.Assert(post <= env.size, "fetched-size-bounded-by-blob-size")
 }
 
+// C06/H2d: as H2a, but the first reply of the registry is a single part whose Content-Range is arbitrary
+// (unrequested, unaligned, empty, reaching past the end of the blob); later replies follow the usual personalities.
+func VerifH_C06_readAtArbitraryPart() {
+	maxSize, maxLen := 3, 2
+	env := verifNewBlobEnv(maxSize, 1, true)
+	env.b.chunkSize++
+	env.b.prefetchChunkSize++
+	env.cs++
+	env.c.m = map[string][]byte{}
+	for i := int64(0); i < env.size; i += env.cs {
+		e := i + env.cs - 1
+		if e >= env.size {
+			e = env.size - 1
+		}
+		if vr.Bool("precached") {
+			env.c.m["k"+strconv.Itoa(int(i))+"-"+strconv.Itoa(int(e))] = append([]byte(nil), env.bytes[i:e+1]...)
+		}
+	}
+	env.f.arbitraryFirst = true
+	verifReadAtCheck(env, maxLen)
+	vr.Reach("end")
+}
+
 // C06/H2a: one ReadAt from an arbitrary cache state (invariant) under every server personality and every delivery
 // granularity (the reply body arrives in Read slices of 1, 2 or all bytes).
 func VerifH_C06_readAtExact() {
 	maxSize, maxCS, maxLen := 4, 2, 3
 	if vr.Tier() > 0 {
-		maxSize, maxCS, maxLen = 7, 3, 5
+		maxSize, maxCS, maxLen = 5, 3, 4
 	}
 	env := verifNewBlobEnv(maxSize, maxCS, true)
 	env.b.chunkSize++ // chunk sizes 2..maxCS+1 (size 1 never straddles)
